@@ -297,6 +297,9 @@ CLAUSE_PROGS = ['for a in b:\n    x = 1\n', 'while a:\n    x = 1\n', 'if a:\n   
                 'if 1:\n  try:\n    pass\n  except A:\n    pass\n', 'def f():\n    for i in j:\n        if k:\n            x = 1\n', 'with a:\n    x = 1\n',
                 'class C:\n    def m(self):\n        try:\n            x = 1\n        finally:\n            y = 2\n', 'if a:\n  if b:\n    x = 1\n', 'match a:\n    case 1:\n        x = 1\n',
                 'x = 1', 'if a: x = 1\n', 'try: x = 1\nfinally: pass\n']
+HEADER_PROGS = ['try  :\n    a\nfinally  :\n    b\n', 'try :\n    a\nexcept  E  as  e :\n    b\nelse :\n    c\nfinally :\n    d\n', 'try :\n    a\nexcept* E :\n    b\n', 'if  a  :\n    x = 1\nelif  b  :\n    y\nelse  :\n    z\n',
+                'while  a :\n    x = 1\nelse :\n    y\n', 'for  i  in  j :\n    x = 1\nelse :\n    y\n', 'with  a  as  b ,  c :\n    x = 1\n', 'def  f ( a , b = 1 )  ->  r :\n    x = 1\n', 'class  C ( B , k = 1 ) :\n    x = 1\n',
+                'match  a :\n    case  1  if  g :\n        x = 1\n    case  _ :\n        y\n', 'if x:\n    try  :\n        a\n    finally :\n        b\n    z\n', 'async def f():\n    async  with  a :\n        pass\n    async  for  i  in  j :\n        pass\n']
 CONT_PROGS = ['a = 1 \\\n; b', 'if x:\n    a = 1 \\\n    ; b\n', 'a = 1; \\\n  b = 2\n', 'a = 1 \\\n  ; b \\\n  ; c\n', 'if x: a = 1 \\\n  ; b\n', 'a \\\n\nb\n', 'def f():\n    return 1 \\\n\n']
 STMT_NEW = ['if x: a', 'x', 'def f(): pass', 'a = 1', 'a; w', 'pass  # c', 'while q: r', 'x = (\n  1)', 'x\n\ny', 'for i in j: k', '@d\ndef g(): pass']
 
@@ -366,6 +369,32 @@ def stage_targeted(ctx: Ctx, progs):
                 for clause in ('finally:', 'else:', 'except Y:', 'except* Y:', 'case _:', 'elif q:'):
                     for body in ('\n' + ' ' * (ind + 4) + 'c', ' c', '\n' + ' ' * (ind + 4) + 'c\n' + ' ' * (ind + 4) + 'd'):
                         judge_edit(ctx, 'restate-and-append-clause', src, 'exec', (ln, c0, eln, ecol), rest + '\n' + ' ' * ind + clause + body)
+    # (4c) edits that stay INSIDE a block header (keyword, blanks, the expressions before the colon): identical text, blanks added / removed, a continuation before the
+    #      colon, and header text that brings a colon and a clause of its own
+    for src in HEADER_PROGS:
+        lines = src.split('\n')
+        for ln, l in enumerate(lines):
+            st = l.lstrip()
+            if not st or not re.match(r'(async\s+)?(if|elif|else|for|while|try|except|finally|with|def|class|match|case)\b', st) or ':' not in l:
+                continue
+            colon = l.rindex(':') if not st.startswith(('def', 'class', 'async def')) else l.index(':', l.rindex(')') if ')' in l else 0)
+            ind = len(l) - len(st)
+            toks_ = [(m_.start(), m_.end()) for m_ in re.finditer(r'\w+|[^\w\s]', l[:colon])]
+            for a_, b_ in toks_:
+                judge_edit(ctx, 'header-edit', src, 'exec', (ln, a_, ln, b_), l[a_:b_])                 # the same text again
+            for pos in sorted({ind, colon} | {b_ for _, b_ in toks_} | {a_ for a_, _ in toks_}):
+                if pos > ind:
+                    judge_edit(ctx, 'header-edit', src, 'exec', (ln, pos, ln, pos), ' ')
+                    if l[pos - 1:pos] == ' ' and pos - 1 > ind and l[pos - 2:pos - 1] == ' ':
+                        judge_edit(ctx, 'header-edit', src, 'exec', (ln, pos - 1, ln, pos), '')
+            judge_edit(ctx, 'header-edit', src, 'exec', (ln, colon, ln, colon), ' \\\n' + ' ' * (ind + 2))
+        root = fst.FST(src, 'exec')
+        for f in root.walk(True):
+            if isinstance(f.a, ast.expr) and f.loc is not None and f.loc[0] == f.loc[2] and isinstance(f.parent.a, (ast.If, ast.While, ast.For, ast.With, ast.withitem, ast.ExceptHandler, ast.match_case, ast.Match)):
+                ln_ = f.loc[0]
+                ind = len(lines[ln_]) - len(lines[ln_].lstrip())
+                for clause in ('else', 'elif b', 'finally', 'except E', 'case _'):
+                    judge_edit(ctx, 'header-brings-clause', src, 'exec', tuple(f.loc), f'{f.src}: pass\n{" " * ind}{clause}')
     # (5) line continuations and semicolons
     for src in CONT_PROGS:
         root = fst.FST(src, 'exec')
